@@ -239,7 +239,7 @@ def run_shard(spec, ctx):
                 def one(fmt=fmt, ext=ext):
                     nonlocal total
                     total += enumerate_format(fmt, ext, spec['full'], ctx)
-                guarded(ctx, {'formats': fmt, 'ext': ext, 'texts': ['31-12-2024']}, one)
+                guarded(ctx, {'formats': fmt, 'ext': ext, 'texts': ['31-12-2024']}, one, secs=1200)
         ctx.exhaustive[('full product' if spec['full'] else 'pairwise slice') + ' of field candidates per format x is_extensible'] = total
     else:
         run_hypothesis(ctx, gen_strategy(), check_case, spec['examples'])
